@@ -100,6 +100,18 @@ func val(seed, i int) float64 {
 			return 16777217 // 2^24+1: rounds in float32
 		case 16:
 			return 1e-7
+		case 17:
+			// the one float32 (up to sign) whose shortest decimal text lies so close to the midpoint of two float32s
+			// that parsing it as a float64 first and narrowing afterwards gives the other neighbour (double rounding)
+			return float64(math.Float32frombits(0x15ae43fd))
+		case 18:
+			return -float64(math.Float32frombits(0x15ae43fd))
+		case 19:
+			return float64(math.SmallestNonzeroFloat32)
+		case 20:
+			return math.SmallestNonzeroFloat64
+		case 21:
+			return -9223372036854775808
 		}
 	}
 	return float64(int(x%13)) - 3
